@@ -39,7 +39,12 @@ var polluters = map[string]string{
 	"mutResp":   "导入《@测试》\n令应 = （新建HTTP响应：200、“ok”）\n以{应之头部}（写入：“Set-Cookie”、“sid=1”）\n应之头部#“X” = “y”\n令应二 = （新建HTTP响应：200、【1】）\n以{应二之头部}（写入：“Set-Cookie”、“sid=2”）\n输出应之头部\n",
 	// executed as a FILE (LoadFile) next to the module file 工具/计算.zn
 	"fileImport": "导入“工具-计算”\n输出（算：1）\n",
+	// not a program: the INPUT-VARIABLE TEXT of a request (exec.ExecVarInputText, as the playground handler evaluates it)
+	"varInputInc": "甲 = 以数值（自增：5）；乙 = 数值",
 }
+
+// the probe's own input-variable text
+const isoVarProbe = "丙 = 数值 + 1"
 
 const isoModule = "如何算？\n    输入甲\n    输出甲 + 41\n"
 
@@ -80,6 +85,12 @@ func handleIso(raw json.RawMessage) interface{} {
 		var err error
 		if p == "fileImport" {
 			_, err = runFile(z, fmt.Sprintf("污%d.zn", k), polluters[p])
+		} else if p == "varInputInc" {
+			var in r.ElementMap
+			in, err = exec.ExecVarInputText(polluters[p])
+			if err == nil {
+				_, err = z.LoadScript([]rune("输入甲、乙\n输出乙\n")).Execute(in)
+			}
 		} else {
 			_, err = z.LoadScript([]rune(polluters[p])).Execute(r.ElementMap{})
 		}
@@ -98,7 +109,17 @@ func handleIso(raw json.RawMessage) interface{} {
 		res["obs"] = "error"
 		res["msg"] = lastLine(err.Error())
 	} else {
-		res["val"] = zn.Snapshot(v)
+		val := zn.Snapshot(v)
+		// tenth observation: what the probe's input-variable text sees
+		vin, verr := exec.ExecVarInputText(isoVarProbe)
+		var tenth interface{} = map[string]interface{}{"t": "error", "msg": fmt.Sprint(verr)}
+		if verr == nil {
+			tenth = zn.Snapshot(vin["丙"])
+		}
+		if items, ok := val["v"].([]interface{}); ok {
+			val["v"] = append(items, tenth)
+		}
+		res["val"] = val
 	}
 	return res
 }
@@ -174,7 +195,13 @@ func handleIsoConc(raw json.RawMessage) interface{} {
 			payload, _ := json.Marshal(map[string]string{"VarInput": "", "SourceCode": fmt.Sprintf("令甲 = %d\n输出“R” + “” == “” 且 真 或 假\n", rq)})
 			_ = payload
 			src := fmt.Sprintf("输出“我是请求%d”\n", rq)
-			payload, _ = json.Marshal(map[string]string{"VarInput": "", "SourceCode": src})
+			vin := ""
+			if c.Free {
+				// free-running requests (race detector runs) use everything that is predefined or registered once per process
+				src = fmt.Sprintf("导入《@JSON》\n令随 = （取随机数）\n以数值（自增：1）\n令文 = （生成JSON：【“a” = 随】）\n如何试？\n    抛出异常：“x”！\n    拦截异常：\n        输出1\n（试）\n输出“我是请求%d”\n", rq)
+				vin = "子 = 以数值（自增：1）；丑 = （取随机数）；寅 = 【1，2】"
+			}
+			payload, _ = json.Marshal(map[string]string{"VarInput": vin, "SourceCode": src})
 			req := httptest.NewRequest(http.MethodPost, "/", bytes.NewReader(payload))
 			rec := httptest.NewRecorder()
 			h.ServeHTTP(rec, req)
